@@ -496,6 +496,12 @@ class _Env:
 
     def integrator(self, steps, cls=None):
         cls = cls or _integrator_class(self.variant)
+        if getattr(self, "assign_step", False):
+            # the step size of a running sampler is not the constructor argument: adaptors, HMCOperator.set_adaptable_parameter and
+            # find_reasonable_step_size assign the public attribute of a live integrator
+            integ = cls("leapfrog", steps, 0.4375)
+            integ.step_size = self.eps
+            return integ
         return cls("leapfrog", steps, self.eps)
 
     def position(self, params=None):
@@ -526,9 +532,10 @@ def _split(d, alt=0):
 # C16.reverse  (V)
 # ======================================================================================================
 
-def scn_reverse(d, sizes, steps, rank, variant="real"):
+def scn_reverse(d, sizes, steps, rank, variant="real", assign_step=False):
     def scn(mk):
         env = _Env(mk, d, sizes, rank, "ufn", variant)
+        env.assign_step = assign_step
         p = mk.real("p", (d,), -2.0, 2.0)
         p_in = _copy(p)
         integ = env.integrator(steps)
@@ -1604,6 +1611,14 @@ def obligations(tier, seed):
                     sizes = _split(d, alt)
                     add("C16.reverse[d=%d,steps=%d,%s,split=%s]" % (d, steps, rank, "+".join(map(str, sizes))), "V",
                         "scn_reverse", (d, sizes, steps, rank), "reversibility", d)
+    # the step size in force is the public attribute of the live integrator (assigned after construction by adaptors,
+    # set_adaptable_parameter, find_reasonable_step_size), not the constructor argument
+    for d in (1, 2, 3):
+        for rank in ranks:
+            for steps in (1, 2, 4):
+                sizes = _split(d)
+                add("C16.reverse.assigned_step_size[d=%d,steps=%d,%s]" % (d, steps, rank), "V",
+                    "scn_reverse", (d, sizes, steps, rank, "real", True), "reversibility for the step size assigned to a live integrator", d)
     # ---- reverse / volume, every step count (U): loop cut
     for d in range(1, D_MAX + 1):
         for rank in ranks:
